@@ -142,9 +142,23 @@ func genStreamLarge(r *Rng, prop, phase string, pEarly, pErr float64) []*Scenari
 	var doc []byte
 	for len(doc) < target {
 		var part []byte
-		switch r.Intn(4) {
+		switch r.Intn(5) {
 		case 0:
 			part = compose(r, r.Range(1, 6))
+		case 4:
+			// ONE line longer than one, two or four read chunks (no line ending
+			// inside), optionally inside a container or a fenced code block
+			n := []int{8100, 8192, 8300, 16500, 33000}[r.Intn(5)] + r.Range(-3, 3)
+			part = append(part, r.Pick([]string{"", "", "> ", "- ", "    ", "# ", "[l]: /u '"})...)
+			unit := inlineText(r)
+			if len(unit) == 0 {
+				unit = "x "
+			}
+			for len(part) < n {
+				part = append(part, unit...)
+				part = append(part, ' ')
+			}
+			part = append(part, '\n')
 		case 1:
 			// one very long block (paragraph or code) spanning several chunks
 			line := inlineText(r)
